@@ -298,7 +298,11 @@ static std::string stepLine(State& s, const std::vector<std::string>& w)
         if ((w[2] == "encode" || w[2] == "encodep" || w[2] == "encode1" || w[2] == "encodell" || w[2] == "encodeacc") && w.size() >= 5)
         {
             DataContext ctx{static_cast<size_t>(nat(w[3])), static_cast<size_t>(nat(w[4]))};
-            if (!(ctx.maxBytesPerMessage >= 25 && ctx.minBytesPerMessage <= ctx.maxBytesPerMessage)) return "bad-ctx";
+            // a maximum below 25 is outside the library's precondition (no frame can hold a message).  A MINIMUM ABOVE THE MAXIMUM is not: the
+            // library accepts it and pads every frame to the minimum; the plain encode operations pass it on (C10 quantifies over arbitrary
+            // configurations), the operations answered by the low-level / accumulating models keep the domain those models are proved on
+            const bool plain = (w[2] == "encode" || w[2] == "encodep" || w[2] == "encode1");
+            if (!(ctx.maxBytesPerMessage >= 25 && (plain || ctx.minBytesPerMessage <= ctx.maxBytesPerMessage))) return "bad-ctx";
             std::vector<Packet> batch;
             for (size_t i = 5; i < w.size(); ++i)
             {
